@@ -1,6 +1,6 @@
 (* sx glue for Model/Proto.v: messages and contents to and from the wire format of the harness. *)
 From Coq Require Import ZArith List Bool.
-From V Require Import Result Bytes Proto.
+From V Require Import Result Bytes Proto DeepEq.
 Import ListNotations.
 Open Scope Z_scope.
 
@@ -192,7 +192,8 @@ Definition sx_cir (c : cIR) : sx :=
 (* ---------- requests ---------- *)
 (* 40: writer   (40 content)            -> (0 header message wf?)
    41: reader   (41 file-header message) -> (0 content) | error
-   42: round trip on a content          -> (0 content') | error *)
+   42: round trip on a content          -> (0 content') | error
+   43: deep_eq both ways and the two normal forms *)
 Definition run_proto (req : sx) : sx :=
   match req with
   | L [A 40; c] =>
@@ -209,5 +210,8 @@ Definition run_proto (req : sx) : sx :=
     | Ok c2 => L [A 0; sx_cir c2; sx_bool (wf c')]
     | Err e => L [A (-1); A (err_code e); sx_bool (wf c')]
     end
+  | L [A 43; a; b] =>
+    let ca := cir_of_sx a in let cb := cir_of_sx b in
+    L [A 0; sx_bool (ir_deq ca cb); sx_bool (ir_deq cb ca); sx_cir (norm ca); sx_cir (norm cb)]
   | _ => L [A (-2)]
   end.
